@@ -359,8 +359,12 @@ fn delta_for_tx(
             }
         }
         crate::portfolio::TxActionSpecifics::Split(split_specs) => {
-            new_share_balance = pre_tx_status.share_balance
-                * split_specs.ratio.pre_to_post_factor().into();
+            // Multiply before dividing, so that the result is exact whenever
+            // it is representable (eg. 9 shares with a 1-for-3 split is 3, rather
+            // than 9 * 0.333... = 2.999...).
+            new_share_balance = (pre_tx_status.share_balance
+                * split_specs.ratio.post_split.into())
+            .div(split_specs.ratio.pre_split);
             let share_diff = *new_share_balance - *pre_tx_status.share_balance;
             // This erroring would be strange in practice. Only if the share balance
             // was already broken.
